@@ -503,7 +503,40 @@ Local Open Scope string_scope.
 """
 
 
-def generate(rules, macro=MACRO):
+HELPERS = ("json_vec", "json_unexpected", "json_expect_expr_comma")
+
+
+def parse_helpers(src):
+    """the rules of the hidden helper macros that the templates of `json!` invoke, as readable renderings
+    (pattern, template); metavariables are numbered in order of first occurrence, as for `json!`"""
+    return [(m, [(sp, st) for (_, sp, st) in shown_of(parse_rules(src, m))]) for m in HELPERS]
+
+
+def helpers_block(helpers):
+    rows = [f"   ({cstr(m)}, " + c_list([f"({cstr(a)}, {cstr(b)})" for a, b in rs]) + ")" for m, rs in helpers]
+    return ("Definition src_helpers_shown : list (string * list (string * string)) :=\n  ["
+            + ";\n".join(rows).lstrip() + "].\n")
+
+
+def read_helpers(vtext):
+    """[(macro, [(pattern, template)])] of `src_helpers_shown` in a generated file (None when absent)"""
+    k = vtext.find("Definition src_helpers_shown")
+    if k < 0:
+        return None
+    strs = re.findall(r'"((?:[^"]|"")*)"', vtext[k:vtext.find("].\n", k) + 1])
+    strs = [x.replace('""', '"') for x in strs]
+    out, i = [], 0
+    while i < len(strs):
+        if strs[i] in HELPERS:
+            out.append((strs[i], []))
+            i += 1
+        else:
+            out[-1][1].append((strs[i], strs[i + 1]))
+            i += 2
+    return out
+
+
+def generate(rules, macro=MACRO, helpers=None):
     out = [HEADER.replace("{macro}", macro)]
     for n, (line, p, t) in enumerate(rules, 1):
         out.append(f"Definition src_rule_{n} : rule :=\n  Rule {c_list([c_pat(q) for q in p])}\n"
@@ -516,6 +549,8 @@ def generate(rules, macro=MACRO):
     out.append("Definition src_rules_count : nat := " + str(len(rules)) + ".\n")
     shown = [f"   ({line}, {cstr(s_pat(p))},\n    {cstr(s_tmpl(t))})" for (line, p, t) in rules]
     out.append("Definition src_rules_shown : list (nat * string * string) :=\n  [" + ";\n".join(shown).lstrip() + "].\n")
+    if helpers is not None:
+        out.append(helpers_block(helpers))
     return "\n".join(out)
 
 
@@ -638,8 +673,10 @@ def pre_build(vf):
     res = {"failures": [], "notes": notes, "details": {}}
     committed = open(gen_path).read() if os.path.exists(gen_path) else None
     try:
-        rules = parse_rules(open(src_path, encoding="utf-8").read())
-        text = generate(rules)
+        src_text = open(src_path, encoding="utf-8").read()
+        rules = parse_rules(src_text)
+        helpers = parse_helpers(src_text)
+        text = generate(rules, helpers=helpers)
     except (TranslateError, OSError, UnicodeDecodeError) as e:
         msg = (f"obligation rules_tie (src_rules = model_rules; C19_rules_from_source) cannot be re-established: the "
                f"translator lib/macro_translate.py cannot parse {src_path}: {e}")
@@ -660,6 +697,12 @@ def pre_build(vf):
         return res
     old = read_shown(committed) or []
     diff = rule_diff(old, shown_of(rules))
+    old_h = read_helpers(committed)
+    if old_h is not None and old_h != helpers:
+        for (m, rs), (_, os_) in zip(helpers, old_h):
+            if rs != os_:
+                diff.append(f"rule set of helper `{m}!` CHANGED: committed (model) " + "; ".join(f"({a}) => {{{b}}}" for a, b in os_)
+                            + "  |  source now " + "; ".join(f"({a}) => {{{b}}}" for a, b in rs))
     notes["rule_diff_lines"] = len(diff)
     with vf.Lock("coq"):
         try:
@@ -671,6 +714,8 @@ def pre_build(vf):
     notes["tie_rebuilt_against_regenerated"] = rc == 0
     if rc != 0:
         first = next((d for d in diff if d.startswith("rule ")), "terms differ")
+        if first.startswith("rule count") and any(d.startswith("rule set of helper") for d in diff):
+            first = next(d for d in diff if d.startswith("rule set of helper"))
         head = (f"obligation rules_tie (src_rules = model_rules; C19_rules_from_source) no longer checks: the rule set "
                 f"regenerated from {src_path} ({len(rules)} rules) is not the one Model/Macro.v implements; first: {first}")
         print("\n".join([head] + diff), file=sys.stderr, flush=True)
@@ -691,11 +736,13 @@ def main():
     if "--repo" in a:
         repo = a[a.index("--repo") + 1]
     try:
-        rules = parse_rules(open(f"{repo}/src/macros.rs", encoding="utf-8").read())
+        src_text = open(f"{repo}/src/macros.rs", encoding="utf-8").read()
+        rules = parse_rules(src_text)
+        helpers = parse_helpers(src_text)
     except TranslateError as e:
         print(f"macro_translate: {repo}/src/macros.rs: {e}", file=sys.stderr)
         return 2
-    text = generate(rules)
+    text = generate(rules, helpers=helpers)
     gen = f"{root}/coq/{GEN_REL}"
     if "--write" in a:
         os.makedirs(os.path.dirname(gen), exist_ok=True)
